@@ -53,6 +53,7 @@ fn main() {
                 "thash" => 1009,
                 "tbig" => 499,
                 "tlong" => 4099,
+                "tpages" => 50021,
                 "trand" if thorough => 7,
                 _ => 1,
             };
@@ -103,9 +104,11 @@ fn main() {
                 }
                 "srand" => srand(&mut g, &mut r, if thorough { 3000 } else { 150 }, if thorough { 120 } else { 30 }),
                 "tlong" => tlong(&mut g, shard),
+                "tpages" => tpages(&mut g, shard),
+                "tclone" => tclone(&mut g, &mut r, if thorough { 20000 } else { 1200 }),
                 "twide" => twide(&mut g, &mut r, if thorough { 12 } else { 2 }, if thorough { 900 } else { 420 }),
                 "tdeep" => tdeep(&mut g, &mut r, if thorough { 600 } else { 40 }),
-                "dwide" => dwide(&mut g, &mut r, if thorough { 12 } else { 1 }, if thorough { 900 } else { 300 }),
+                "dwide" => dwide(&mut g, &mut r, if thorough { 12 } else { 2 }, if thorough { 900 } else { 420 }),
                 "tkeylen" => tkeylen(&mut g, &mut r, if thorough { 6000 } else { 400 }),
                 "dnear" => dnear(&mut g, &mut r, if thorough { 1 << 21 } else { 1 << 18 }),
                 "thash" => thash(&mut g, &mut r, shard, if thorough { 300_000 } else { 70_000 }),
